@@ -179,7 +179,10 @@ CHECKS = {
         text='PGPKey.__bytearray__ (shape bounded: 2 key signatures, 2 user ids, 2 subkeys; all flags and octets symbolic) exports key, then exactly '
              'the non-embedded exportable signatures in order, each user id followed by its exportable signatures, then subkeys; exportable defaults to '
              'true and follows the subpacket; Boolean subpacket parse; SorteDeque.insort keeps the multiset, order of old elements, sortedness and is '
-             'stable (0..3 elements, symbolic keys). Import (groupby pipeline), concatenated keys, trust packets, copy: bounded component.',
+             'stable (0..3 elements, symbolic keys); PGPKey.__or__ / PGPUID.__or__ attachment rules, __copy__ of keys and identities; the import '
+             'pipeline PGPKey.parse (itertools.groupby with its stateful grouping object) executed from the real source for nine packet shapes '
+             '(signatures to the component before them, identities and subkeys to the most recent primary key, trust / unknown packets dropped, '
+             'several keys separated). Other shapes, real key material and export/import round trips: bounded component.',
         note=TB,
         technique='contract-based deductive verification (bounded shapes, symbolic contents); bounded import/export component with an independent splitter',
         design_ref='6 (C14)'),
